@@ -148,8 +148,77 @@ impl Meta {
             _ => 10_000,
         };
         match self.which {
-            Which::C09 => Families::new(vec![("directed", c09_directed().len() as u64), ("scopes-reference", n), ("scopes-variants", n)]),
-            Which::C10 => Families::new(vec![("directed", c10_directed().len() as u64), ("fusable-variants", n), ("general-variants", n / 2)]),
+            Which::C09 => Families::new(vec![
+                ("directed", c09_directed().len() as u64),
+                ("scopes-reference", n),
+                ("scopes-variants", n),
+                // names that collide under standard hash functions, and tens of thousands of distinct names in one scope
+                // (props/collide.rs)
+                ("colliding-names", if ctx.flavour == Flavour::Rel { super::collide::pairs().len() as u64 * 2 } else { 0 }),
+                ("many-names", match (ctx.flavour, ctx.tier) { (Flavour::Rel, Tier::Quick) => MANY.len() as u64, (Flavour::Rel, Tier::Thorough) => MANY.len() as u64 + 24, _ => 0 }),
+            ]),
+            Which::C10 => Families::new(vec![
+                ("directed", c10_directed().len() as u64),
+                ("fusable-variants", n),
+                ("general-variants", n / 2),
+                ("colliding-literals", if ctx.flavour == Flavour::Rel { super::collide::literal_pairs().len() as u64 * 2 } else { 0 }),
+                ("many-literals", match (ctx.flavour, ctx.tier) { (Flavour::Rel, Tier::Quick) => 9, (Flavour::Rel, Tier::Thorough) => 60, _ => 0 }),
+            ]),
+        }
+    }
+
+    fn collisions(&self, ctx: &Ctx, name: &'static str, i: u64, st: &mut Stats) {
+        use super::collide;
+        let mut cfg = ObsCfg::default();
+        cfg.budget = Some(3_000_000);
+        let mut r = Rng::for_case(ctx.seed, 990, i + if name.starts_with("many") { 7_000 } else { 0 });
+        st.count(&format!("programs:{}", name));
+        match name {
+            "colliding-names" => {
+                let p = &collide::pairs()[(i / 2) as usize];
+                let (a, b) = if i % 2 == 0 { (&p.a, &p.b) } else { (&p.b, &p.a) };
+                st.set_insert("collision-kinds", &p.how);
+                for (shape, text, want, lines) in collide::name_programs(a, b) {
+                    st.distinct_hash(hash_str(&text));
+                    let l = if lines.is_empty() { None } else { Some(lines.as_slice()) };
+                    collide::judge(name, shape, &p.how, &text, &want, l, &cfg, st);
+                }
+            }
+            "colliding-literals" => {
+                let all = collide::literal_pairs();
+                let (how, a, b) = &all[(i / 2) as usize];
+                let (a, b) = if i % 2 == 0 { (a, b) } else { (b, a) };
+                st.set_insert("collision-kinds", how);
+                for (shape, text, want) in collide::literal_programs(a, b) {
+                    st.distinct_hash(hash_str(&text));
+                    collide::judge(name, shape, how, &text, &want, None, &cfg, st);
+                }
+            }
+            "many-names" => {
+                let (n, style, locals) = if (i as usize) < MANY.len() { MANY[i as usize] } else { if i % 5 == 0 { (5_000, (i % 2) * 2, true) } else { (60_000, (i % 2) * 2, false) } };
+                let names = collide::distinct_names(&mut r, n, style);
+                let (text, want) = collide::many_names_program(&names, locals);
+                st.add("many-names:names-declared-and-read-back", n as u64);
+                st.distinct_hash(hash_str(&text));
+                if n > 20_000 {
+                    cfg = ObsCfg::plain(50_000_000);
+                }
+                cfg.budget = Some(50_000_000);
+                collide::judge(name, if locals { "locals" } else { "globals" }, &format!("style{}-{}", style, n), &text, &collide::Want::Value(want), None, &cfg, st);
+            }
+            _ => {
+                let kind = i % 3;
+                let n = if i < 3 { 2_000 } else if kind == 0 { 30_000 } else { 60_000 };
+                let (text, want) = collide::many_literals_program(&mut r, n, kind);
+                st.add("many-literals:literals-read-back", n as u64);
+                st.distinct_hash(hash_str(&text));
+                if n > 20_000 {
+                    // (the plain interpreter: under the shadow heap a pool of 60 000 heap constants costs minutes)
+                    cfg = ObsCfg::plain(50_000_000);
+                }
+                cfg.budget = Some(50_000_000);
+                collide::judge(name, ["strings", "integers", "floats"][kind as usize], &format!("{}", n), &text, &collide::Want::Value(want), None, &cfg, st);
+            }
         }
     }
 
@@ -189,6 +258,9 @@ impl Meta {
     }
 }
 
+/// (names, style, as locals of one function) of the many-names programs of the quick tier
+const MANY: &[(usize, u64, bool)] = &[(1_000, 0, false), (1_000, 3, true), (18_278, 1, false), (5_000, 2, true), (60_000, 0, false), (60_000, 2, false), (5_000, 0, true), (30_000, 3, false)];
+
 impl Check for Meta {
     fn id(&self) -> &'static str {
         match self.which {
@@ -203,10 +275,21 @@ impl Check for Meta {
         200
     }
     fn describe_case(&mut self, ctx: &Ctx, idx: u64) -> String {
+        let (_, name, i) = self.fams(ctx).locate(idx);
+        if matches!(name, "colliding-names" | "many-names" | "colliding-literals" | "many-literals") {
+            return format!("{} #{}", name, i);
+        }
         to_text(&self.base_program(ctx, idx).1)
     }
 
     fn run_case(&mut self, ctx: &Ctx, idx: u64, st: &mut Stats) {
+        {
+            let (_, name, i) = self.fams(ctx).locate(idx);
+            if matches!(name, "colliding-names" | "many-names" | "colliding-literals" | "many-literals") {
+                self.collisions(ctx, name, i, st);
+                return;
+            }
+        }
         let (fam, prog) = self.base_program(ctx, idx);
         let text = to_text(&prog);
         if fam == "directed" && prog.is_empty() {
